@@ -333,7 +333,20 @@ func c02Middleware(p *Program, r *Report) {
 func c02ClosureErr(p *Program, r *Report, f *ssa.Function, ctor string) {
 	key := fnName(f) + "/" + ctor + ":error-tested"
 	found := false
-	for _, cl := range f.AnonFuncs {
+	// the closures this function creates (its own literals and those of helpers inlined into it)
+	var cls []*ssa.Function
+	seenCl := map[*ssa.Function]bool{}
+	for _, b := range f.Blocks {
+		for _, in := range b.Instrs {
+			if mc, isMC := in.(*ssa.MakeClosure); isMC {
+				if g, ok := mc.Fn.(*ssa.Function); ok && !seenCl[g] {
+					seenCl[g] = true
+					cls = append(cls, g)
+				}
+			}
+		}
+	}
+	for _, cl := range cls {
 		for _, c := range callsTo(cl, ctor) {
 			found = true
 			ok := false
@@ -444,7 +457,18 @@ func c02BigAtoms(p *Program, r *Report) bigAtoms {
 				lits = append(lits, strings.TrimPrefix(a, "arg:"))
 			}
 		}
+		hasSet := []string(nil)
+		if hc, isC := ce.cond.(*ssa.Call); isC && calleeName(hc) == "(*github.com/valyala/fasthttp.Args).Has" && len(lits) != 1 {
+			// the excluded sub-resources as a constant table the test loops over
+			if ss, ok := stringSet(p, callArgs(hc)[0]); ok {
+				hasSet = ss
+			}
+		}
 		switch {
+		case ce.atoms["call:(*github.com/valyala/fasthttp.Args).Has"] && needFails && len(hasSet) > 0:
+			for _, q := range hasSet {
+				out.query[q] = true
+			}
 		case ce.atoms["call:(*github.com/valyala/fasthttp.Args).Has"] && needFails && len(lits) == 1:
 			out.query[lits[0]] = true
 		case ce.atoms["call:"+fiberCtx+".Get"] && ce.isEqNeq && ce.atoms[`const:""`] && needHolds && len(lits) == 1:
@@ -858,7 +882,7 @@ func c02Readers(p *Program, r *Report) {
 				reach := reachableFromEdge(f, e, nil)
 				for _, s := range errReturnSites(f) {
 					for _, rt := range Origins(s.val, nil) {
-						if rt.Kind == "call" && strings.HasSuffix(rt.Desc, ".Read") && reach[s.ret.Block()] {
+						if rt.Kind == "call" && strings.HasSuffix(rt.Desc, ".Read") && s.reachedIn(reach) {
 							ok, why = false, "after a failed check the inner (EOF) error is returned instead of the verdict"
 						}
 					}
